@@ -30,7 +30,7 @@ PROP = 'C08'
 NONE = '-'
 INIT_FILE = {'ch': ['a', 'b', 'c'], 'def': 'a', 'x': False, 'lr': ['2', '5', '8']}
 DKEY = {'popt': 'popt', 'xopt': 'xopt', 'dl': 'default_library', 'subdl': 'sub:default_library', 'subpopt': 'sub:popt',
-        'subflag': 'sub:flag', 'level': 'level'}
+        'subflag': 'sub:flag', 'level': 'level', 'arr': 'arr'}
 
 PROBE = r'''
 import sys, json
@@ -49,6 +49,7 @@ def write_option_file(src: Path, name: str, f: T.Dict[str, T.Any]) -> None:
     txt = "option('popt', type: 'combo', choices: [%s], value: '%s')\n" % (', '.join("'%s'" % c for c in sorted(f['ch'])), f['def'])
     txt += "option('flag', type: 'boolean', value: false)\n"
     # the declared range of `level`: the model says which of the probe values 2, 5, 8 it admits
+    txt += "option('arr', type: 'array', value: ['x'])\n"
     txt += "option('level', type: 'integer', min: %d, max: %d, value: 5)\n" % (1 if '2' in f['lr'] else 4, 9 if '8' in f['lr'] else 6)
     if f['x']:
         txt += "option('xopt', type: 'string', value: 'xd')\n"
@@ -132,7 +133,7 @@ def recorded_cmdline(b: Path) -> T.Dict[str, str]:
 def observe(d: Path, env: T.Dict[str, str], out: str, configuring: bool) -> T.Dict[str, T.Any]:
     """project the persisted state of the build directory"""
     obs: T.Dict[str, T.Any] = {'skip': False, 'exists': False, 'v': NONE, 'ch': [], 'x': NONE, 'dl': NONE, 'subdl': NONE,
-                               'sp': NONE, 'sf': NONE, 'lv': NONE, 'cmd': {k: NONE for k in DKEY}, 'mv': NONE, 'msp': NONE, 'msubdl': NONE,
+                               'sp': NONE, 'sf': NONE, 'lv': NONE, 'ar': NONE, 'cmd': {k: NONE for k in DKEY}, 'mv': NONE, 'msp': NONE, 'msubdl': NONE,
                                'msf': NONE}
     b = d / 'build'
     obs['cmd'] = recorded_cmdline(b)
@@ -151,6 +152,7 @@ def observe(d: Path, env: T.Dict[str, str], out: str, configuring: bool) -> T.Di
     obs['x'] = intro['xopt']['value'] if 'xopt' in intro else NONE
     obs['dl'] = intro['default_library']['value']
     obs['lv'] = str(intro['level']['value'])
+    obs['ar'] = ','.join(intro['arr']['value'])        # "" = the empty array
     p = subprocess.run([common.PYTHON, '-c', PROBE, str(common.REPO), str(b), 'sub:default_library', 'sub:popt', 'sub:flag'],
                        cwd=d, env=env, stdout=subprocess.PIPE, stderr=subprocess.PIPE, text=True, timeout=900)
     if p.returncode != 0:
@@ -222,7 +224,7 @@ def replay_history(job: T.Tuple[str, T.List[T.Dict[str, T.Any]], int]) -> T.Dict
                 raise MachineryError('unknown action ' + a)
             if a == 'Edit':
                 obs = {'skip': True, 'exists': False, 'v': NONE, 'ch': [], 'x': NONE, 'dl': NONE, 'subdl': NONE, 'sp': NONE,
-                       'sf': NONE, 'lv': NONE, 'cmd': {k: NONE for k in DKEY}, 'mv': NONE, 'msp': NONE, 'msubdl': NONE, 'msf': NONE}
+                       'sf': NONE, 'lv': NONE, 'ar': NONE, 'cmd': {k: NONE for k in DKEY}, 'mv': NONE, 'msp': NONE, 'msubdl': NONE, 'msf': NONE}
             else:
                 try:
                     obs = observe(d, env, out, configuring and rc == 0)
@@ -391,7 +393,7 @@ def main(chk: Check) -> None:
             chk.nontriv(c['id'])
     for c in done[:: max(1, len(done) // 4)][:4]:
         chk.sample({'history': c['id'], 'steps': [{'a': e['a'], 'D': e['D'], 'rc': e['rc'],
-                                                    'obs': {k: e['obs'][k] for k in ('exists', 'v', 'ch', 'x', 'dl', 'subdl', 'sp', 'sf', 'lv', 'cmd')}}
+                                                    'obs': {k: e['obs'][k] for k in ('exists', 'v', 'ch', 'x', 'dl', 'subdl', 'sp', 'sf', 'lv', 'ar', 'cmd')}}
                                                    for e in c['ev']]})
     judge(chk, done, 'A')
     chk.extra['histories_replayed'] = len(done)
@@ -400,7 +402,8 @@ def main(chk: Check) -> None:
     chk.exhaustive = not quick
     chk.assumptions += [
         'one project shape: top-level combo option popt (choices edited), string option xopt (added/removed), boolean option '
-        'flag (never changed), integer option level (min/max edited: raise min, lower max, both), subproject options popt '
+        'flag (never changed), integer option level (min/max edited: raise min, lower max, both), array option arr (given '
+        'empty with -Darr=; xopt is also given empty, sub:flag also given false), subproject options popt '
         'and flag with yield:true, builtin default_library with a sub:default_library override',
         'the recorded command line is observed as the [options] section of meson-private/cmd_line.txt (the file --wipe replays)',
         'a -D value is generated only when it is valid both for the stored and for the edited option file (meson applies -D '
